@@ -69,7 +69,7 @@ impl Packet {
     /// Asynchronously decode a packet from an async reader.
     pub async fn decode_async<T: AsyncRead + Unpin>(reader: &mut T) -> Result<Self, Error> {
         let header = Header::decode_async(reader).await?;
-        Ok(match header.typ {
+        let packet = match header.typ {
             PacketType::Pingreq => Packet::Pingreq,
             PacketType::Pingresp => Packet::Pingresp,
             PacketType::Disconnect => Packet::Disconnect,
@@ -93,7 +93,13 @@ impl Packet {
                     .into()
             }
             PacketType::Unsuback => Packet::Unsuback(Pid::try_from(read_u16(reader).await?)?),
-        })
+        };
+        // The body must fit in the frame the fixed header declared: a packet whose
+        // canonical encoding is longer than that frame was read past the frame's end.
+        if packet.encode_len()? > total_len(header.remaining_len as usize)? {
+            return Err(Error::InvalidRemainingLength);
+        }
+        Ok(packet)
     }
 
     /// Asynchronously encode the packet to an async writer.
